@@ -37,6 +37,7 @@ import (
 	"github.com/smallstep/certificates/authority"
 	"github.com/smallstep/certificates/authority/config"
 	"github.com/smallstep/certificates/authority/provisioner"
+	stepca "github.com/smallstep/certificates/ca"
 	"github.com/smallstep/certificates/db"
 	"github.com/smallstep/certificates/scep"
 
@@ -70,6 +71,10 @@ type provSpec struct {
 	CA string
 	// Dec: provisioner-specific decrypter: "" none, "both" certificate and key, "certonly".
 	Dec     string
+	// KeyMode (with Dec "both"): "" the key as decrypterKeyPEM; "uri" as decrypterKey (a softkms URI);
+	// "uripem" the URI names the certified key and decrypterKeyPEM still holds another, older key;
+	// "urimismatch" the certificate certifies the PEM key while the URI names another key (Init fails)
+	KeyMode string
 	ForceCN bool
 	EncAlg  int  // EncryptionAlgorithmIdentifier (SetAlg: use it; otherwise 2)
 	SetAlg  bool
@@ -112,6 +117,11 @@ var provSpecs = []provSpec{
 	{Name: "pcert", Secret: staticSecret, Dec: "certonly"},
 	{Name: "pcaps", Secret: staticSecret, IncRoot: true, Caps: []string{"POSTPKIOperation", "SHA-256", "AES"}},
 	{Name: "pexint", Secret: staticSecret, ExInt: true},
+	// the provisioner's key behind a KMS URI, alone, next to a left-over PEM, contradicting the certificate
+	{Name: "puri", Secret: staticSecret, Dec: "both", KeyMode: "uri"},
+	{Name: "puripem", Secret: staticSecret, Dec: "both", KeyMode: "uripem", ExInt: true},
+	{Name: "purimis", Secret: staticSecret, Dec: "both", KeyMode: "urimismatch"},
+	{Name: "euripem", CA: "ec", Dec: "both", KeyMode: "uripem", Hooks: []hookSpec{{"scep", "x509", "deny"}}},
 	{Name: "pforce", Secret: staticSecret, ForceCN: true},
 	// the authority whose intermediate key is EC: no default decrypter
 	{Name: "edec", CA: "ec", Secret: staticSecret, Dec: "both"},
@@ -140,6 +150,12 @@ var provSpecs = []provSpec{
 	{Name: "ahssh", CA: "adm", Hooks: []hookSpec{{"scep", "ssh", "deny"}}},
 	{Name: "abogus", CA: "adm", Hooks: []hookSpec{{"bogus", "x509", "deny"}}},
 	{Name: "abadct", CA: "adm", Hooks: []hookSpec{{"scep", "bad", "deny"}}},
+	{Name: "apuripem", CA: "adm", Secret: staticSecret, Dec: "both", KeyMode: "uripem"},
+	// the CA that really listens (TLS and plain HTTP) and is reloaded from its configuration file
+	{Name: "sstatic", CA: "srv", Secret: staticSecret},
+	{Name: "shdeny", CA: "srv", Hooks: []hookSpec{{"scep", "x509", "deny"}}},
+	{Name: "shmn", CA: "srv", Hooks: []hookSpec{{"scep", "x509", "match"}, {"notify", "x509", "allow"}}},
+	{Name: "spdec", CA: "srv", Secret: staticSecret, Dec: "both", KeyMode: "uripem"},
 	// webhooks that answer 503 first: DoWithContext retries once after a pause of one second
 	{Name: "h5a", Hooks: []hookSpec{{"scep", "x509", "r5allow"}}, CornerOnly: true},
 	{Name: "h5d", Hooks: []hookSpec{{"scep", "x509", "r5deny"}}, CornerOnly: true},
@@ -344,10 +360,19 @@ type testCA struct {
 	life    string               // adm: "mig" | "reload" | "update" | "restart"
 	cur     map[string]*provSpec // adm: the configuration in force per provisioner name
 	adb     *admDB
+	staleKeyPEM []byte // an RSA key no certificate of the harness certifies
+	// the CA that really listens (kind "srv")
+	real     *stepca.CA
+	cfgFile  string
+	tlsURL   string
+	insURL   string
+	client   *http.Client
+	reloaded int
 	decs    map[string]*clientKey        // provisioner name -> its own decrypter certificate and key
 }
 
 func (t *testCA) close() {
+	t.stopReal()
 	if t.auth != nil {
 		_ = t.auth.Shutdown()
 	}
@@ -392,7 +417,29 @@ func specInitFails(ps *provSpec, converted bool) bool {
 			return true
 		}
 	}
-	return (ps.SetAlg && ps.EncAlg > 4) || ps.MinLen%8 != 0
+	return (ps.SetAlg && ps.EncAlg > 4) || ps.MinLen%8 != 0 || ps.KeyMode == "urimismatch"
+}
+
+// keyFields: which key (1 = the one the decrypter certificate certifies, 2 = another one) the
+// certificate, decrypterKeyPEM and decrypterKey (URI) of a configuration hold.
+func keyFields(ps *provSpec) string {
+	kc, kp, ku := "!", "!", "!"
+	if ps.Dec != "" {
+		kc = "1"
+	}
+	if ps.Dec == "both" {
+		switch ps.KeyMode {
+		case "":
+			kp = "1"
+		case "uri":
+			ku = "1"
+		case "uripem":
+			kp, ku = "2", "1"
+		case "urimismatch":
+			kp, ku = "1", "2"
+		}
+	}
+	return fmt.Sprintf("kcert=%s kpem=%s kuri=%s", kc, kp, ku)
 }
 
 func newTestCA(kind string, hooks *hookServer) (*testCA, error) {
@@ -479,6 +526,12 @@ func newTestCA(kind string, hooks *hookServer) (*testCA, error) {
 		t.cfg.DB = &db.Config{Type: "bbolt", DataSource: filepath.Join(dir, "db")}
 		t.life = "mig"
 	}
+	if kind == "srv" {
+		if err := t.startReal(); err != nil {
+			return nil, err
+		}
+		return t, nil
+	}
 	if err := t.start(); err != nil {
 		return nil, err
 	}
@@ -531,7 +584,52 @@ func (t *testCA) buildProv(ps *provSpec) (*provisioner.SCEP, error) {
 			if err != nil {
 				return nil, err
 			}
-			p.DecrypterKeyPEM = pem.EncodeToMemory(blk)
+			certified := pem.EncodeToMemory(blk)
+			other := func() ([]byte, error) {
+				if t.staleKeyPEM == nil {
+					k2, err := rsa.GenerateKey(rand.Reader, 2048)
+					if err != nil {
+						return nil, err
+					}
+					b2, err := pemutil.Serialize(k2)
+					if err != nil {
+						return nil, err
+					}
+					t.staleKeyPEM = pem.EncodeToMemory(b2)
+				}
+				return t.staleKeyPEM, nil
+			}
+			keyFile := func(name string, data []byte) (string, error) {
+				fn := filepath.Join(t.dir, name+".key")
+				if err := os.WriteFile(fn, data, 0o600); err != nil {
+					return "", err
+				}
+				return "softkms:path=" + fn, nil
+			}
+			switch ps.KeyMode {
+			case "":
+				p.DecrypterKeyPEM = certified
+			case "uri":
+				if p.DecrypterKeyURI, err = keyFile(ps.Name, certified); err != nil {
+					return nil, err
+				}
+			case "uripem":
+				if p.DecrypterKeyURI, err = keyFile(ps.Name, certified); err != nil {
+					return nil, err
+				}
+				if p.DecrypterKeyPEM, err = other(); err != nil {
+					return nil, err
+				}
+			case "urimismatch":
+				p.DecrypterKeyPEM = certified
+				o, err := other()
+				if err != nil {
+					return nil, err
+				}
+				if p.DecrypterKeyURI, err = keyFile(ps.Name, o); err != nil {
+					return nil, err
+				}
+			}
 		}
 	}
 	if len(ps.Hooks) > 0 {
